@@ -40,7 +40,7 @@ type tracked struct {
 func run(e *core.Env) {
 	tp := e.Tape
 	e.StartClock()
-	ms := mesh.Build(e, mesh.Options{MinNodes: 2, MaxNodes: 12, MaxExtraEdges: 3, TwoByteLabels: true, BigInfo: true})
+	ms := mesh.Build(e, mesh.Options{MinNodes: 2, MaxNodes: 12, MaxExtraEdges: 3, TwoByteLabels: true, BigInfo: true, RoamingSome: tp.Chance(1, 2)})
 	ms.AutoReply = true
 	n := len(ms.Nodes)
 
